@@ -165,6 +165,49 @@ def sentinel_rule(ck, funcs, report):
     return trackers
 
 
+def signedness_rule(ck, funcs, report):
+    """clause: bytes are compared as unsigned char (C11 7.24.4: "the sign of a nonzero value returned by the comparison functions is
+    determined by the sign of the difference between the values of the first pair of characters (both interpreted as unsigned char)").
+    Where the value stored through the result parameter is (an extension of) the difference of two loaded 8-bit elements, each element
+    must reach the subtraction zero-extended; a sign-extended byte orders 0x80..0xff below 0x00..0x7f -- reported.  Wider elements
+    (wchar_t, uint16_t, uint32_t) are not judged: their signedness is the element type's own."""
+    n = 0
+    for fn in funcs:
+        outs = [fn.pnames[p]["id"] for p in RESULT_PARAMS if p in fn.pnames and fn.pnames[p]["ty"] == "i32*"]
+        if not outs:
+            continue
+        for i in fn.insts():
+            if i["op"] != "store" or i["ops"][1].get("k") != "v" or i["ops"][1]["id"] not in outs or i["ops"][0].get("k") != "v":
+                continue
+            v, hops = i["ops"][0], 0
+            while v.get("k") == "v" and hops < 6:
+                d = fn.defs.get(v["id"])
+                if d is None:
+                    break
+                if d["op"] in ("sext", "zext", "trunc"):
+                    v = d["ops"][0]; hops += 1
+                    continue
+                if d["op"] == "sub":
+                    exts = []
+                    for o in d["ops"]:
+                        e = fn.defs.get(o.get("id")) if o.get("k") == "v" else None
+                        if e is None or e["op"] not in ("sext", "zext"):
+                            break
+                        l = fn.defs.get(e["ops"][0].get("id")) if e["ops"][0].get("k") == "v" else None
+                        if l is None or l["op"] != "load" or l.get("bits") != 8:
+                            break
+                        exts.append(e)
+                    if len(exts) == 2:
+                        n += 1
+                        bad = [e for e in exts if e["op"] == "sext"]
+                        if bad:
+                            report("C10:bytes-compared-signed:%s" % api.base_name(fn.name), "R-bytes-compared-as-unsigned-char", fn.loc(bad[0]),
+                                   "%s stores the difference of two bytes that were sign-extended: a byte 0x80..0xff compares below every byte 0x00..0x7f, the opposite of strcmp/memcmp, which compare as unsigned char"
+                                   % api.base_name(fn.name))
+                break
+    return n
+
+
 UNBOUNDED_SEARCHERS = ("strchr", "strrchr", "strstr", "strpbrk", "wcschr", "wcsrchr", "wcsstr", "wcspbrk", "index", "rindex", "strchrnul", "rawmemchr")
 _PRED = {"eq": lambda a, b: a == b, "ne": lambda a, b: a != b, "sgt": lambda a, b: a > b, "ugt": lambda a, b: a > b, "sge": lambda a, b: a >= b, "uge": lambda a, b: a >= b,
          "slt": lambda a, b: a < b, "ult": lambda a, b: a < b, "sle": lambda a, b: a <= b, "ule": lambda a, b: a <= b}
@@ -266,10 +309,13 @@ def run(ck):
         ck.fail_broken("narrowing rule: only %d stores of a variable value through result parameters found (< 10)" % nres)
     ntrk = sentinel_rule(ck, funcs, ck.report)
     nwin = window_rule(ck, funcs, ck.report)
+    nsgn = signedness_rule(ck, funcs, ck.report)
+    if nsgn < 2:
+        ck.fail_broken("signedness rule: only %d byte differences stored through result parameters found (< 2: strcmp_s, strcmpfld_s)" % nsgn)
     if nwin < 1:
         ck.fail_broken("window rule: no call of a length-less libc searcher on an operand found (strchr_s used to have one)")
     fx = selftest(ck)
-    cov = dict(position_trackers_checked_for_sentinel_collision=ntrk, lengthless_searcher_calls_checked_for_window=nwin, scan_completeness=sc, result_stores_checked_for_narrowing=nres, explanation="For each of the %d exported query functions anchored by the property, every operand parameter (%d pointers named dest/src/str/key/base) "
+    cov = dict(position_trackers_checked_for_sentinel_collision=ntrk, lengthless_searcher_calls_checked_for_window=nwin, byte_differences_checked_for_signedness=nsgn, scan_completeness=sc, result_stores_checked_for_narrowing=nres, explanation="For each of the %d exported query functions anchored by the property, every operand parameter (%d pointers named dest/src/str/key/base) "
                "is followed through getelementptr/casts/phi/select/integer round trips and through every library callee (inter-procedural write summaries, fixpoint over "
                "the call graph); a store or a writing effect on a derived pointer is a violation. Passing the pointer to the registered constraint handler or to the caller's "
                "comparator, and storing an interior pointer into an out-parameter, are not writes. Scan completeness: in %d budgeted scan loops (a counter from a length argument decreasing by a constant, a cursor advancing by a constant) every exit "
@@ -313,4 +359,9 @@ def selftest(ck):
     out["window"] = dict(fired=sorted(got5), calls=nw)
     if sorted(got5) != ["C10:answer-outside-window:win_off_by_one:strchr:sgt", "C10:answer-outside-window:win_unchecked:strrchr:unchecked"] or nw != 4:
         ck.fail_broken("fixture c10.c: window rule got %s (%d calls)" % (sorted(got5), nw))
+    got6 = []
+    ns = signedness_rule(B(), [prog.funcs[n] for n in ("cmp8_unsigned_good", "cmp8_signed", "cmp16_good")], lambda key, *a: got6.append(key))
+    out["signedness"] = dict(fired=got6, differences=ns)
+    if got6 != ["C10:bytes-compared-signed:cmp8_signed"] or ns != 2:
+        ck.fail_broken("fixture c10.c: signedness rule got %s (%d differences)" % (got6, ns))
     return out
